@@ -4,7 +4,7 @@
 From XcpModel Require Import Base Backup Paths Walker Meta.
 From XcpProofs Require Import WalkerProofs MetaProofs.
 From XcpModel Require Import Extracted.
-From XcpProofs Require Import ExtractedOk.
+From XcpProofs Require Import XWalker XConfig.
 From Coq Require Import String.
 
 (* no operation (copy, link, mkdir, mknod) is ever emitted for a target that
@@ -45,3 +45,32 @@ Print Assumptions C08_noclobber_collision_fails.
 Print Assumptions C08_noclobber_frame.
 Print Assumptions C08_special_worker_refuses.
 Print Assumptions C08_src_noclobber_check.
+
+(* ---- further glue on this property's path, pinned token for token (an edit re-opens the obligation; the run then
+   looks for a failing input) ---- *)
+From XcpPins Require Import Pin_parblock_new Pin_parfile_new Pin_mod_load_driver Pin_operations_new Pin_parfile_copy_worker Pin_parblock_dispatch_worker.
+From XcpProofs Require Import PinnedSource.
+Theorem C08_src_pin_parblock_new : pin_unchanged name_parblock_new.
+Proof. exact pin_parblock_new. Qed.
+Theorem C08_src_pin_parfile_new : pin_unchanged name_parfile_new.
+Proof. exact pin_parfile_new. Qed.
+Theorem C08_src_pin_mod_load_driver : pin_unchanged name_mod_load_driver.
+Proof. exact pin_mod_load_driver. Qed.
+Theorem C08_src_pin_operations_new : pin_unchanged name_operations_new.
+Proof. exact pin_operations_new. Qed.
+Theorem C08_src_pin_parfile_copy_worker : pin_unchanged name_parfile_copy_worker.
+Proof. exact pin_parfile_copy_worker. Qed.
+Theorem C08_src_pin_parblock_dispatch_worker : pin_unchanged name_parblock_dispatch_worker.
+Proof. exact pin_parblock_dispatch_worker. Qed.
+(* Config::from(&Opts) is one struct literal with no `..default` tail, and every option other than the worker count
+   and the block size reaches the library unchanged under its own name *)
+Theorem C08_src_options_reach_config : forall f e, List.In (f, e) x_config_fields ->
+  f <> "workers"%string -> f <> "block_size"%string -> e = ("opts." ++ f)%string.
+Proof. exact x_config_fields_plain. Qed.
+Print Assumptions C08_src_options_reach_config.
+Print Assumptions C08_src_pin_parblock_new.
+Print Assumptions C08_src_pin_parfile_new.
+Print Assumptions C08_src_pin_mod_load_driver.
+Print Assumptions C08_src_pin_operations_new.
+Print Assumptions C08_src_pin_parfile_copy_worker.
+Print Assumptions C08_src_pin_parblock_dispatch_worker.
